@@ -670,7 +670,9 @@ pub fn hb_check_range(c: &mut Core, me: usize, off: u32, len: u32, what: &str) {
         return;
     }
     c.handover_checks += 1;
-    for b in off..off + len {
+    // a range that sticks out of the arena is somebody else's violation (C02/C04: handle outside the data area)
+    let end = (off as u64 + len as u64).min(c.released_by.len() as u64) as u32;
+    for b in off.min(end)..end {
         let (t1, ep) = c.released_by[b as usize];
         if t1 == 0 {
             continue;
